@@ -198,7 +198,18 @@ pub fn finish(ctx: &Ctx, states: u64, transitions: u64, traces_validated: u64, e
     if !unlisted.is_empty() {
         let dir = format!("{}/replays", VERIF_ROOT);
         let _ = std::fs::create_dir_all(&dir);
-        for (i, v) in unlisted.iter().enumerate().take(10) {
+        // a few replay files per distinct kind, so that no kind hides behind another
+        let mut per_kind: BTreeMap<String, usize> = BTreeMap::new();
+        let chosen: Vec<&&Violation> = unlisted
+            .iter()
+            .filter(|v| {
+                let c = per_kind.entry(v.kind.clone()).or_insert(0);
+                *c += 1;
+                *c <= 3
+            })
+            .take(30)
+            .collect();
+        for (i, v) in chosen.iter().enumerate() {
             let path = format!("{}/{}-{}.json", dir, ctx.prop, i);
             let body = json!({
                 "property": ctx.prop,
